@@ -734,6 +734,76 @@ Section Local.
     constructor; [apply good_leaf|constructor].
   Qed.
 
+  (* ---- rank-1 object arrays: the cells, then the shape tuple (an object the dumper creates) around the cached small int ---- *)
+  Lemma objarr_PV id cells :
+    let n := Z.of_nat (length cells) in
+    Objs (PObjArr id (s "numpy") (s "ndarray") [n] cells) -> is_small_int n = true ->
+    Objs (PScalar (small_int_base + n) (SInt n)) -> Forall PV cells -> PV (PObjArr id (s "numpy") (s "ndarray") [n] cells).
+  Proof.
+    intros n Hv Hsm Hio HQ st j st3 H Hb. cbn [get_state map] in H.
+    replace (Z.to_nat n) with (length cells) in H by (unfold n; rewrite Nat2Z.id; reflexivity).
+    rewrite (tolist_rank1 (fun x s0 => get_state D x s0)) in H.
+    destruct (fresh st) as [lid sta] eqn:Hfr.
+    destruct (states_of _ cells sta) as [[js st1]|] eqn:E0; [|discriminate H]. cbn [bind] in H.
+    change (jindex (list_state js lid) (CodecDump.K "content")) with (Ok (A:=json) (JArr js)) in H. cbn [bind] in H.
+    rewrite (shape_state_small n st1 Hsm) in H.
+    set (i := (small_int_base + n)%Z) in *.
+    set (shj := node_state (CodecDump.K "tuple") (CodecDump.K "builtins") (CodecDump.K "TupleNode")
+                  [(CodecDump.K "content", JArr [json_state (show_Z n) i])] (d_next st1)) in H.
+    set (st2 := snd (fresh st1)) in H.
+    pose proof (Oid _ Hv) as Hid. cbn [pid] in Hid.
+    set (v := PObjArr id (s "numpy") (s "ndarray") [n] cells) in *.
+    match type of H with Ok (?a, _) = _ => set (jv := a) in H end.
+    injection H as <- <-.
+    assert (Hd : lid = d_next st /\ d_next sta = (d_next st + 1)%Z).
+    { unfold fresh in Hfr. injection Hfr as <- <-. cbn. split; reflexivity. }
+    destruct Hd as [-> Hna].
+    assert (Hn2 : d_next st2 = (d_next st1 + 1)%Z) by reflexivity.
+    destruct (gen_local cells HQ _ _ _ E0 ltac:(lia)) as [Hnext1 [Hlen HG0]].
+    split; [lia|].
+    unfold jv. change id with (pid v).
+    apply (wrap v _ _ _ _ (s "_numpy.NdArrayNode") KNdArray (d_next st) (d_next st2)); try assumption; try reflexivity; try (cbn; tauto); [lia|].
+    intros fuel m sl nn m' H Hm. cbn [pid v] in H. fold jv in H.
+    assert (Hbd : forall rec, build E rec sl [] (s "_numpy.NdArrayNode") KNdArray m jv
+            = do (h, m0) <- node_init sl KNdArray (s "_numpy.NdArrayNode") [] true m jv JNull;
+              do (ns, m1) <- sub_list rec [] (GetTree.K "content") m0 js;
+              do (shn, m2) <- rec [] (SOne (GetTree.K "shape")) m1 shj;
+              Ok (Node (set_aux h (JStr (GetTree.K "json"))) (or_empty (GetTree.K "content") LEmptyList ns ++ [shn]), m2)).
+    { intros rec. unfold build. destruct (node_init _ _ _ _ _ _ _ _) as [[h m0]|]; reflexivity. }
+    rewrite Hbd in H. unfold jv in H at 1. rewrite init_eq in H by (try reflexivity; lia). cbn [bind] in H. clear Hbd.
+    rewrite sub_list_gen, <- combine_const in H.
+    destruct (sub_gen _ _ (key id :: m)) as [[ns m1]|] eqn:Es; [|discriminate H]. cbn [bind] in H.
+    destruct (HG0 _ _ _ _ _ Es) as [Hlt [Hnl Hg]].
+    { rewrite map_length. exact Hlen. }
+    { apply memo_lt_cons; [lia|]. eapply memo_lt_le; [|exact Hm]. lia. }
+    destruct (get_tree fuel E proto [] (SOne (GetTree.K "shape")) m1 shj) as [[shn m2]|] eqn:Ekt; [|discriminate H]. cbn [bind] in H.
+    injection H as <- <-.
+    assert (Hmem2 : memo_mem (key (d_next st1)) m1 = false) by (apply (memo_lt_fresh _ (d_next st1)); [exact Hlt|lia]).
+    destruct fuel as [|fuel]; [discriminate Ekt|].
+    unfold shj, proto in Ekt.
+    rewrite (gt_step E Hreg fuel (SOne (GetTree.K "shape")) m1 _ _ _ _ (d_next st1) (s "_general.TupleNode") KTuple) in Ekt;
+      [|reflexivity|cbn; tauto|reflexivity]. rewrite Hmem2 in Ekt.
+    assert (HQi : Forall PV [PScalar i (SInt n)]) by (constructor; [apply scalar_PV; exact Hio|constructor]).
+    assert (Hx1 : own (d_next st1) 2) by (right; lia).
+    assert (Hx3 : (base <= d_next st2)%Z) by lia.
+    assert (Hst : states_of (fun x s0 => get_state D x s0) [PScalar i (SInt n)] st2 = Ok ([json_state (show_Z n) i], st2)) by reflexivity.
+    destruct (seq_local QTuple (d_next st1) (s "tuple") (s "builtins") [PScalar i (SInt n)] st2 [json_state (show_Z n) i] st2 2 Hx1 ltac:(lia) HQi Hst Hx3
+                ltac:(intros x [<-|[]]; cbn; lia) ltac:(lia)
+                fuel m1 (SOne (GetTree.K "shape")) (d_next st2) shn m2 Ekt) as [Hklt [Hkg Hknl]].
+    { eapply memo_lt_le; [|exact Hlt]. lia. }
+    { lia. }
+    { lia. }
+    split; [exact Hklt|]. split; [|reflexivity].
+    apply (good_own id); [exact (own_obj v Hv)|reflexivity| |apply need_pos|].
+    - unfold nice. cbn [set_aux mkh h_class h_module h_kind is_jstr andb]. rewrite forallb_app. cbn [forallb]. rewrite andb_true_r.
+      replace (leaf_plain shn) with true by (destruct shn; [reflexivity|reflexivity|discriminate Hknl]). rewrite andb_true_r.
+      destruct ns as [|n1 ns']; [reflexivity|]. cbn [or_empty]. apply vl_plain_of_notleaf. exact Hnl.
+    - apply Forall_app. split.
+      + destruct ns as [|n1 ns']; cbn [or_empty]; [constructor; [apply good_leaf|constructor]|]. apply Hg.
+        intros x Hx. pose proof (max_map_in (fun x => need x) x cells Hx). unfold v. cbn [need]. cbn beta in *. lia.
+      + constructor; [|constructor]. eapply good_mono; [exact Hkg|]. unfold v. cbn [need]. lia.
+  Qed.
+
   (* ---- assembling ---- *)
   Theorem vok_good : forall v, vok D F Objs v -> PV v.
   Proof.
@@ -753,7 +823,8 @@ Section Local.
       apply Forall_map_snd. eapply Forall_imp2; [exact IH|apply vok_vals; exact Hvals].
     - intros id mo c f l IHf IH [Ho [-> [-> [Hi [Hf Hvals]]]]]. apply defdict_PV; try assumption; [apply IHf; exact Hf|].
       apply Forall_map_snd. eapply Forall_imp2; [exact IH|apply vok_vals; exact Hvals].
-    - intros; cbn [vok] in *; tauto.
+    - intros id mo c sh l IH [Ho [-> [-> [-> [Hsm [Hrt [Hio Hall]]]]]]]. apply objarr_PV; try assumption.
+      eapply Forall_imp2; [exact IH|apply vok_all; exact Hall].
     - intros id mo c d k IHd IHk [Ho [-> [-> [Hd Hk0]]]]. apply masked_PV; auto.
     - intros id mo c x IHx [Ho [Hr Hx]]. apply randstate_PV; auto.
     - intros id mo c x y IHx IHy [Ho [Hr [Hx Hy]]]. apply randgen_PV; auto.
